@@ -8,10 +8,10 @@ BASE_OFF = "cd /repo && /venv/bin/python -m pytest -ra -q -p no:cacheprovider --
 TB = "Trusted: Lean 4.33 kernel, axioms {propext, Classical.choice, Quot.sound} (audited every run), Mathlib v4.33, the Lean compiler/runtime running the model driver, harness/*.py (correspondence, shims, statistics). "
 
 CHECKS = {
-    "C01": ("proof", "Lean theorems over the discovery model for every series/estimator/permutation stream/method: lagged_entry (row r = time max_lag+r, predictor delayed by exactly tau), label bijection, edge_semantics (cmi = est(lagged u, target v | other reported parents)), pvalue_formula (fraction of X-row-shuffled surrogates >= cmi). Tied to discover_network by exact replay of the real run (recorded permutation stream, scripted rational estimator on coded series that identify (variable,time) of every array entry) plus recomputation of each real edge's cmi with the public dispatcher.",
+    "C01": ("proof", "Lean theorems over the discovery model for every series/estimator/permutation stream/method: lagged_entry (row r = time max_lag+r, predictor delayed by exactly tau), label bijection, edge_semantics (cmi = est(lagged u, target v | other reported parents)), pvalue_formula (fraction of X-row-shuffled surrogates >= cmi); end-to-end (Master.lean): discover_parent_tests / discover_edges_of_survivors / discover_spec state these about the value returned by the model's discover, every reported parent having one passed forward and one passed backward shuffle test with p <= alpha+1/n, under the permutation hypothesis PermOK that is checked on every recorded run. Tied to discover_network by exact replay of the real run (recorded permutation stream, scripted rational estimator on coded series that identify (variable,time) of every array entry) plus recomputation of each real edge's cmi with the public dispatcher.",
             "Modelled not verified: NumPy slicing/column_stack, Generator stream (recorded), LASSO selections (oracle with checked range). 'Agrees with an independent permutation estimate up to sampling error' is a measurement (Hoeffding, budget 1e-9).",
             "Lean 4 proof on executable discovery model + exact event-trace correspondence on coded series"),
-    "C02": ("proof", "Lean refinement theorems: for ALL landscapes f, verdict oracles (stateful allowed) and backward visiting orders, the code-shaped standard/alternative forward phases, the backward phase and their composition satisfy the declarative oCSE rule (arg-max among undecided given initial+accepted, accept iff pass, std continues / alt stops, each accepted re-tested once against current survivors, levels alpha_f/alpha_b); consequences: result duplicate-free subset, one edge per survivor. Tie: the real functions driven by scripted oracles, EXHAUSTIVE decision-tree enumeration for <=3 candidates (all weak orderings x verdicts x visiting orders), sampled to 8 candidates incl. NaN/tie-heavy landscapes; every implementation trace is replayed through the model and judged by the declarative checker specOK.",
+    "C02": ("proof", "Lean refinement theorems: for ALL landscapes f, verdict oracles (stateful allowed) and backward visiting orders, the code-shaped standard/alternative forward phases, the backward phase and their composition satisfy the declarative oCSE rule (arg-max among undecided given initial+accepted, accept iff pass, std continues / alt stops, each accepted re-tested once against current survivors, levels alpha_f/alpha_b); consequences: result duplicate-free subset, one edge per survivor; end-to-end (Master.lean): discover_target_spec — the parents reported by the model's discover for each target are the survivors of the declarative rule on that target's own oracles and stream block. Tie: the real functions driven by scripted oracles, EXHAUSTIVE decision-tree enumeration for <=3 candidates (all weak orderings x verdicts x visiting orders), sampled to 8 candidates incl. NaN/tie-heavy landscapes; every implementation trace is replayed through the model and judged by the declarative checker specOK.",
             "NaN is ordered as NumPy's argmax treats it (first NaN wins, fails every comparison). Oracles are observed at module-attribute seams.",
             "Lean 4 refinement proof + exhaustive small-scope differential replay"),
     "C03": ("proof", "Lean theorems on the model of shuffle_test for every finite null, alpha in (0,1), n>=1: threshold inside the order-statistic bracket of the (1-alpha) quantile, p = #{null >= obs}/n, value echoed, pass => p <= alpha+1/n, fail => p >= alpha-1/n (also for ANY threshold inside the bracket, covering NumPy's rounded interpolation), fully tied null never significant, exactly n surrogates each on (X permuted, Y, Z). Tie: real shuffle_test with the estimator seam spied (arrays/permutations recorded), scripted tie-free/partially tied/fully tied nulls and the five real estimators; exact comparison with the model's decision.",
